@@ -194,5 +194,11 @@ func (w *World) apply(op *Op) {
 		w.outers[op.Node].UpdateObject(w.cols[op.Member])
 	case "ndel":
 		w.outers[op.Node].DeleteObject(krt.GetKey[krt.Collection[Obj]](w.cols[op.Member]))
+	case "ndelm":
+		ks := map[string]bool{}
+		for _, m := range op.Members {
+			ks[krt.GetKey[krt.Collection[Obj]](w.cols[m])] = true
+		}
+		w.outers[op.Node].DeleteObjects(func(c krt.Collection[Obj]) bool { return ks[krt.GetKey[krt.Collection[Obj]](c)] })
 	}
 }
